@@ -117,8 +117,8 @@ def token_scope(prog, e):
 def causes_for(prog, q, t):
     """shrunk causes of a deviation between query token q and token t (one failure is
     recorded per cause; see c15._split for bindings rope does not see at all)"""
-    if q.get("lc") or t.get("lc") or q["s"] == 0 or t["s"] == 0:
-        # a name of the second module and its aliases
+    if q.get("lc") or t.get("lc") or q.get("sc") or t.get("sc") or q["s"] == 0 or t["s"] == 0:
+        # a name of the second module (or of the importer's same-named sibling) and its aliases
         return ["lib-name"]
     for e in (q, t):
         c = e["k"]
@@ -206,7 +206,7 @@ def compare(prog, r, answers):
                         fails.append(({"clause": "extra", "obs": "decoy", "cause": t["op"]},
                                       "asked at %s: the %s is reported" % (ps.ev_key(q), t["op"])))
                     else:
-                        fail("extra", "other-binding" if t["b"] else "undetermined", q, t,
+                        fail("extra", "other-binding" if (t["b"] or t.get("lc") or t.get("sc")) else "undetermined", q, t,
                              "asked at %s (binding %s): token %s of binding %s is reported" % (
                                  ps.ev_key(q), b, ps.ev_key(t), "lib" if t.get("lc") else t["b"]))
         if len(seen) > 1:
@@ -228,6 +228,17 @@ def compare(prog, r, answers):
         elif got != mods:
             fails.append((dict(key, obs="missing" if set(got) < set(mods) else "extra" if set(got) > set(mods) else "both"),
                           "asked at module token %s: reported %s, tokens naming the module are %s" % (place, got, mods)))
+    # layout "shadowed": the tokens naming the sibling module are a class of their own
+    sibs = r.sibling_module_places()
+    for place in sibs:
+        got = answers[place]
+        key = {"clause": "module-name", "cause": "sibling-module:%s" % prog.lib}
+        if isinstance(got, dict):
+            fails.append((dict(key, obs="error:" + got["error"]),
+                          "find_occurrences at sibling module token %s raised %s" % (place, got["error"])))
+        elif got != sibs:
+            fails.append((dict(key, obs="missing" if set(got) < set(sibs) else "extra" if set(got) > set(sibs) else "both"),
+                          "asked at sibling module token %s: reported %s, tokens naming pk/lb.py are %s" % (place, got, sibs)))
     return fails
 
 
@@ -241,7 +252,8 @@ def run_case(item):
         return {"machinery": "spec vs CPython: %s\n%s\n%s" % (e, ps.describe(prog), r.src)}
     offs = r.places()
     queries = sorted({offs[ps.ev_key(e)] for e in prog.events if e["det"]
-                      and not offs[ps.ev_key(e)][0].startswith("<outside>/")} | set(r.module_places()))
+                      and not offs[ps.ev_key(e)][0].startswith("<outside>/")} | set(r.module_places())
+                     | set(r.sibling_module_places()))
     answers = ask(r, queries)
     fails = compare(prog, r, answers)
     nonempty = sum(1 for v in answers.values() if isinstance(v, list) and len(v) >= 2)
